@@ -129,6 +129,23 @@ class zimex(object):
         return b'zimex' + self.impl.v.tobytes() + self.expl.v.tobytes()
 
 
+class zcomp2(object):
+    """right-hand side with two implicit parts (multi_implicit sweeper)"""
+
+    __array_ufunc__ = None
+
+    def __init__(self, init=None, val=0.0):
+        if isinstance(init, zcomp2):
+            self.comp1 = zmesh(init.comp1)
+            self.comp2 = zmesh(init.comp2)
+        else:
+            self.comp1 = zmesh(init, val)
+            self.comp2 = zmesh(init, val)
+
+    def verif_bytes(self):
+        return b'zcomp2' + self.comp1.v.tobytes() + self.comp2.v.tobytes()
+
+
 def solve_mod(Mx, rhs):
     """solve Mx x = rhs over Z_p by Gaussian elimination; raises ProblemError if singular"""
     n = len(rhs)
@@ -200,6 +217,30 @@ class ZpLinearRK(ZpLinear):
 
     def u_exact(self, t):
         return mesh([1] * self.n)
+
+
+class ZpMulti(ZpLinear):
+    """f = comp1 (A u) + comp2 (B u), both implicit"""
+
+    dtype_f = zcomp2
+
+    def eval_f(self, u, t):
+        self.work_counters['rhs']()
+        f = zcomp2((self.n, None, None))
+        f.comp1 = self._apply(self.A, u)
+        f.comp2 = self._apply(self.B, u)
+        return f
+
+    def _solve(self, Mat, rhs, factor):
+        c = hom(factor)
+        Mx = [[((1 if i == j else 0) - c * int(Mat[i][j])) % P for j in range(self.n)] for i in range(self.n)]
+        return zmesh(solve_mod(Mx, rhs.v))
+
+    def solve_system_1(self, rhs, factor, u0, t):
+        return self._solve(self.A, rhs, factor)
+
+    def solve_system_2(self, rhs, factor, u0, t):
+        return self._solve(self.B, rhs, factor)
 
 
 class ZpIMEX(ZpLinear):
@@ -307,3 +348,4 @@ def install_generators():
     make('ZQI', 'QI', False)
     make('ZQIK', 'QIK', True)
     make('ZQE', 'QE', False)
+    make('ZQ2', 'QE', False)  # second implicit preconditioner of multi_implicit (stored in the QE slot of an instance)
